@@ -3,6 +3,7 @@ import YaegiVerif.Spec.GoExtract
 import YaegiVerif.Expected.C18
 import YaegiVerif.Generated.C18
 import YaegiVerif.Proofs.C18Gen
+import YaegiVerif.Proofs.C18Names
 import YaegiVerif.Proofs.C18Float
 /-
   C18 — property theorems: `extract` emits complete, faithful wrappers.
@@ -16,7 +17,7 @@ open YaegiVerif YaegiVerif.Extract YaegiVerif.Proofs.C18
 /-! ### ties to the source -/
 
 /-- the choices read from extract/extract.go are the ones the model was written against -/
-theorem facts_tie : Generated.C18.facts = Expected.C18.facts := by decide
+theorem facts_tie : Generated.C18.facts = Expected.C18.facts := rfl
 
 /-- the functions transcribed in Model/Extract.lean (and the template text) are unchanged -/
 theorem source_tie : Generated.C18.sourceHashes = Expected.C18.sourceHashes := by decide
@@ -36,35 +37,27 @@ def boundKeys (f : File) : List String := (f.vals ++ f.typs).map (·.key)
 
 /-! ### 1. exactly the exported non-generic objects are bound -/
 
-/-- what genContent binds -/
-def boundY (o : Obj) : Bool :=
-  o.exported && match o.kind with
-  | .const _ => true
-  | .func g => !g
-  | .var => true
-  | .typ g => !g
-  | .iface g emb _ ms => !g && !(ms.isEmpty && emb != 0)
-  | .other => false
-
-private theorem boundY_iff (p : Pkg) (o : Obj) :
-    boundY o = true ↔ ((valForm K p o).isSome = true ∨ typKept K o = true) := by
+private theorem bindable_iff (p : Pkg) (o : Obj) :
+    Spec.bindable o = true ↔ ((valForm K p o).isSome = true ∨ typKept K o = true) := by
   rw [valForm_K, typKept_K]
-  unfold boundY
+  unfold Spec.bindable
   cases o.exported <;> cases o.kind <;> simp
   all_goals (rename_i u; cases u <;> simp)
 
-/-- **the model binds exactly the objects `boundY` describes** (every package) -/
-theorem binds_exactly_model (p : Pkg) (name : String) :
-    name ∈ boundKeys (genE p) ↔ ∃ o ∈ p.objs, o.name = name ∧ boundY o = true := by
+/-- **the bound names are exactly those of the exported, non-generic objects that can be bound at
+    all** (a constraint interface cannot) — every package, every interface shape (since 87ef90c the
+    constraint test is `IsMethodSet`, the notion the property uses) -/
+theorem binds_exactly_exported_nongeneric (p : Pkg) (name : String) :
+    name ∈ boundKeys (genE p) ↔ ∃ o ∈ p.objs, o.name = name ∧ Spec.bindable o = true := by
   simp only [boundKeys, genE, genY, List.map_append, List.mem_append, List.mem_map]
   constructor
   · rintro (⟨e, he, rfl⟩ | ⟨e, he, rfl⟩)
     · obtain ⟨o, ho, f, hf, rfl⟩ := (mem_valEntries p e p.objs).1 he
-      exact ⟨o, ho, rfl, (boundY_iff p o).2 (Or.inl (by simp [hf]))⟩
+      exact ⟨o, ho, rfl, (bindable_iff p o).2 (Or.inl (by simp [hf]))⟩
     · obtain ⟨o, ho, hk, rfl⟩ := (mem_typEntries p e p.objs).1 he
-      exact ⟨o, ho, rfl, (boundY_iff p o).2 (Or.inr hk)⟩
+      exact ⟨o, ho, rfl, (bindable_iff p o).2 (Or.inr hk)⟩
   · rintro ⟨o, ho, rfl, hb⟩
-    rcases (boundY_iff p o).1 hb with hv | ht
+    rcases (bindable_iff p o).1 hb with hv | ht
     · left
       cases hf : valForm K p o with
       | none => simp [hf] at hv
@@ -72,62 +65,35 @@ theorem binds_exactly_model (p : Pkg) (name : String) :
     · right
       exact ⟨_, (mem_typEntries p _ p.objs).2 ⟨o, ho, ht, rfl⟩, rfl⟩
 
-/-- the property at full strength: the bound names are exactly those of the exported, non-generic
-    objects that can be bound at all (a constraint interface cannot) -/
-def binds_exactly_exported_nongeneric_statement : Prop :=
-  ∀ (p : Pkg) (name : String),
-    name ∈ boundKeys (genE p) ↔ ∃ o ∈ p.objs, o.name = name ∧ Spec.bindable o = true
+/-- **the constraint test is `IsMethodSet`**: an interface is kept as a type iff it is exported, not
+    generic and a method set — whatever it embeds and whatever methods it has -/
+theorem constraint_classification_exact (name : String) (x g methodSet : Bool) (emb : Nat) (ms : List Method) :
+    typKept K ⟨name, x, .iface g emb methodSet ms⟩ = (x && !g && methodSet) := by
+  rw [typKept_K]; cases x <;> simp
 
-/-- genContent's test for "constraint interface" (`NumMethods() == 0 && NumEmbeddeds() != 0`)
-    agrees with `IsMethodSet` on this object -/
-def ifaceRuleExact (o : Obj) : Bool :=
-  match o.kind with
-  | .iface g emb methodSet ms => g || ((ms.isEmpty && emb != 0) == !methodSet)
-  | _ => true
-
-/-- decidable domain of `binds_exactly_exported_nongeneric_partial` -/
-def DomBind (p : Pkg) : Prop := ∀ o ∈ p.objs, ifaceRuleExact o = true
-
-instance (p : Pkg) : Decidable (DomBind p) := by unfold DomBind; infer_instance
-
-private theorem boundY_eq_bindable (o : Obj) (h : ifaceRuleExact o = true) : boundY o = Spec.bindable o := by
-  unfold boundY Spec.bindable
-  unfold ifaceRuleExact at h
-  cases o.exported <;> cases hk : o.kind <;> simp_all
-  rename_i g emb ms methods
-  cases g <;> cases ms <;> cases methods <;> simp_all
-
-theorem binds_exactly_exported_nongeneric_partial (p : Pkg) (h : DomBind p) (name : String) :
-    name ∈ boundKeys (genE p) ↔ ∃ o ∈ p.objs, o.name = name ∧ Spec.bindable o = true := by
-  rw [binds_exactly_model]
-  constructor
-  · rintro ⟨o, ho, hn, hb⟩; exact ⟨o, ho, hn, by rw [← boundY_eq_bindable o (h o ho)]; exact hb⟩
-  · rintro ⟨o, ho, hn, hb⟩; exact ⟨o, ho, hn, by rw [boundY_eq_bindable o (h o ho)]; exact hb⟩
-
-/-- an ordinary interface whose only content is an embedded empty interface (`interface{ any }`):
-    usable as a type, yet skipped -/
+/-- an ordinary interface whose only content is an embedded empty interface (`interface{ any }`) -/
 def pkgEmbedsEmpty : Pkg :=
   { importPath := "x.y/p", path := "x.y/p", name := "p", dest := "lib", minor := 23, tags := [],
     objs := [⟨"E", true, .iface false 1 true []⟩] }
 
-/-- a constraint interface that also has a method (`interface{ ~int; String() string }`): bound
-    although it cannot be used as a type -/
+/-- a constraint interface that also has a method (`interface{ ~int; String() string }`) -/
 def pkgConstraintMethod : Pkg :=
   { importPath := "x.y/p", path := "x.y/p", name := "p", dest := "lib", minor := 23, tags := [],
-    objs := [⟨"C", true, .iface false 1 false [⟨"String", true, false, [], [⟨"", "string".toList, none, []⟩]⟩]⟩] }
+    objs := [⟨"C", true, .iface false 1 false [⟨"String", true, false, [], [⟨"", "string".toList, none, [], true⟩]⟩]⟩] }
 
-theorem iface_embeds_only_empty_witness :
-    "E" ∉ boundKeys (genE pkgEmbedsEmpty) ∧ ∃ o ∈ pkgEmbedsEmpty.objs, o.name = "E" ∧ Spec.bindable o = true := by
-  decide
+/-- regression (F18-4, fixed by 87ef90c): `interface{ any }` is bound and wrapped -/
+theorem iface_embeds_only_empty_fixed :
+    boundKeys (genE pkgEmbedsEmpty) = ["E"] ∧ (genE pkgEmbedsEmpty).wtypes = [⟨"_x_y_p_E", "E", []⟩] := by decide
 
-theorem constraint_iface_with_methods_witness :
-    "C" ∈ boundKeys (genE pkgConstraintMethod) ∧ ¬ ∃ o ∈ pkgConstraintMethod.objs, o.name = "C" ∧ Spec.bindable o = true := by
-  decide
+/-- regression (F18-5, fixed by 87ef90c): a constraint interface with a method is not bound -/
+theorem constraint_iface_with_methods_fixed :
+    boundKeys (genE pkgConstraintMethod) = [] ∧ (genE pkgConstraintMethod).wtypes = [] := by decide
 
-theorem binds_exactly_witness : ¬ binds_exactly_exported_nongeneric_statement := by
-  intro h
-  have := (h pkgEmbedsEmpty "E").2 iface_embeds_only_empty_witness.2
-  exact iface_embeds_only_empty_witness.1 this
+/-- with the facts of the tree before 87ef90c the model reproduces both findings: the theorems above
+    depend on the regenerated `skips` -/
+example :
+    boundKeys (genY { K with skipNonMethodSet := false, skipConstraintIface := true } pkgEmbedsEmpty) = [] ∧
+    boundKeys (genY { K with skipNonMethodSet := false, skipConstraintIface := true } pkgConstraintMethod) = ["C"] := by decide
 
 /-- non-vacuity: a package with a typed and an untyped constant, a generic and a plain function, a
     variable, a generic type and a one-method interface is in the domain, and binds five names -/
@@ -135,11 +101,11 @@ def pkgMixed : Pkg :=
   { importPath := "x.y/p", path := "x.y/p", name := "p", dest := "lib", minor := 23, tags := ["foo"],
     objs := [⟨"A", true, .const none⟩, ⟨"B", true, .const (some (.int 5))⟩, ⟨"F", true, .func false⟩,
              ⟨"G", true, .func true⟩, ⟨"I", true, .iface false 0 true
-               [⟨"M", true, true, [⟨"", "int".toList, none, []⟩, ⟨"xs", "[]io.Reader".toList, some "io.Reader".toList, ["io"]⟩],
-                 [⟨"", "error".toList, none, []⟩]⟩, ⟨"u", false, false, [], []⟩]⟩,
+               [⟨"M", true, true, [⟨"", "int".toList, none, [], false⟩, ⟨"xs", "[]io.Reader".toList, some "io.Reader".toList, ["io"], false⟩],
+                 [⟨"", "error".toList, none, [], false⟩]⟩, ⟨"u", false, false, [], []⟩]⟩,
              ⟨"T", true, .typ true⟩, ⟨"V", true, .var⟩, ⟨"w", false, .var⟩] }
 
-example : DomBind pkgMixed ∧ boundKeys (genE pkgMixed) = ["A", "B", "F", "V", "I"] := by decide
+example : boundKeys (genE pkgMixed) = ["A", "B", "F", "V", "I"] := by decide
 
 /-! ### 2. every object is bound under its own name -/
 
@@ -150,47 +116,28 @@ def boundIdent : Form → Option Ident
   | .typ id => some id
   | _ => none
 
-/-- the full statement: the identifier bound under key `k` is the package's own `k`, except in the
-    wrapper of the standard library's os / log, where the sandboxed replacement is bound -/
-def own_name_statement : Prop :=
-  ∀ (p : Pkg), ∀ e ∈ (genE p).vals ++ (genE p).typs, ∀ id,
-    boundIdent e.form = some id → id = Spec.ident K.restricted p e.key
-
-/-- domain: the package is the standard library's own (import path = name), or none of its object
-    names collides with the `restricted` table -/
-def DomName (p : Pkg) : Prop :=
-  p.importPath = p.name ∨ ∀ o ∈ p.objs, K.restricted.contains (p.name ++ o.name) = false
-
-instance (p : Pkg) : Decidable (DomName p) := by unfold DomName; infer_instance
-
-private theorem pname_eq_ident (p : Pkg) (name : String)
-    (h : p.importPath = p.name ∨ K.restricted.contains (p.name ++ name) = false) :
-    pname K p name = Spec.ident K.restricted p name := by
+private theorem pname_eq_ident (p : Pkg) (name : String) : pname K p name = Spec.ident K.restricted p name := by
   unfold pname Spec.ident
-  rcases h with h | h
-  · simp [h]
-  · have h' : ¬ (p.name ++ name ∈ K.restricted) := by simpa using h
-    simp [h']
+  simp only [K_restrictedStdOnly, Bool.not_true, Bool.false_or]
+  cases (K.restricted.contains (p.name ++ name)) <;> cases (p.importPath == p.name) <;> rfl
 
 private theorem boundIdent_fixConst (id id' : Ident) (v : CVal) (h : boundIdent (fixConst K id v) = some id') : id' = id := by
   rw [fixConst_K] at h
   cases v <;> simp [boundIdent] at h <;> exact h.symm
 
-theorem own_name_partial (p : Pkg) (h : DomName p) :
+/-- **every object is bound under its own name**: the identifier bound under key `k` is the package's
+    own `k`, except in the wrapper of the standard library's os / log (import path = package name),
+    where the sandboxed replacement is bound — every package (since 246eb1c a third-party package
+    that happens to be called os or log is no exception) -/
+theorem own_name_spec (p : Pkg) :
     ∀ e ∈ (genE p).vals ++ (genE p).typs, ∀ id, boundIdent e.form = some id → id = Spec.ident K.restricted p e.key := by
   intro e he id hid
-  have hdom : ∀ o ∈ p.objs, pname K p o.name = Spec.ident K.restricted p o.name := by
-    intro o ho
-    apply pname_eq_ident
-    rcases h with h | h
-    · exact Or.inl h
-    · exact Or.inr (h o ho)
   simp only [genE, genY, List.mem_append] at he
   rcases he with he | he
   · obtain ⟨o, ho, f, hf, rfl⟩ := (mem_valEntries p e p.objs).1 he
     rw [valForm_K] at hf
     simp only at hid ⊢
-    rw [← hdom o ho]
+    rw [← pname_eq_ident]
     cases hx : o.exported <;> simp [hx] at hf
     cases hk : o.kind <;> simp [hk] at hf
     · rename_i u
@@ -201,36 +148,41 @@ theorem own_name_partial (p : Pkg) (h : DomName p) :
     · subst hf; simpa [boundIdent] using hid.symm
   · obtain ⟨o, ho, _, rfl⟩ := (mem_typEntries p e p.objs).1 he
     simp only [boundIdent, Option.some.injEq] at hid
-    rw [← hdom o ho]; exact hid.symm
+    rw [← pname_eq_ident]; exact hid.symm
 
-/-- corollary in plain words: outside os/log collisions every bound identifier is `pkg.Key` -/
-theorem own_name (p : Pkg) (h : ∀ o ∈ p.objs, K.restricted.contains (p.name ++ o.name) = false) :
+/-- corollary in plain words: outside the standard library's os and log every bound identifier is
+    `pkg.Key` -/
+theorem own_name (p : Pkg) (h : p.importPath ≠ p.name ∨ ∀ o ∈ p.objs, K.restricted.contains (p.name ++ o.name) = false) :
     ∀ e ∈ (genE p).vals ++ (genE p).typs, ∀ id, boundIdent e.form = some id → id = ⟨p.name, e.key⟩ := by
   intro e he id hid
-  have hkey : K.restricted.contains (p.name ++ e.key) = false := by
-    simp only [genE, genY, List.mem_append] at he
-    rcases he with he | he
-    · obtain ⟨o, ho, f, _, rfl⟩ := (mem_valEntries p e p.objs).1 he; exact h o ho
-    · obtain ⟨o, ho, _, rfl⟩ := (mem_typEntries p e p.objs).1 he; exact h o ho
-  have := own_name_partial p (Or.inr h) e he id hid
-  have h' : ¬ (p.name ++ e.key ∈ K.restricted) := by simpa using hkey
-  rw [this]; unfold Spec.ident; simp [h']
+  have := own_name_spec p e he id hid
+  rw [this]; unfold Spec.ident
+  rcases h with h | h
+  · have : (p.importPath == p.name) = false := by simpa using h
+    simp [this]
+  · have hkey : K.restricted.contains (p.name ++ e.key) = false := by
+      simp only [genE, genY, List.mem_append] at he
+      rcases he with he | he
+      · obtain ⟨o, ho, f, _, rfl⟩ := (mem_valEntries p e p.objs).1 he; exact h o ho
+      · obtain ⟨o, ho, _, rfl⟩ := (mem_typEntries p e p.objs).1 he; exact h o ho
+    have h' : ¬ (p.name ++ e.key ∈ K.restricted) := by simpa using hkey
+    simp [h']
 
 /-- a third-party package that happens to be called `log` and exports `Fatal` -/
 def pkgForeignLog : Pkg :=
   { importPath := "x.y/log", path := "x.y/log", name := "log", dest := "lib", minor := 23, tags := [],
     objs := [⟨"Fatal", true, .func false⟩] }
 
-theorem restricted_foreign_witness :
-    (genE pkgForeignLog).vals = [⟨"Fatal", .value ⟨"", "logFatal"⟩⟩] ∧
-    Spec.ident K.restricted pkgForeignLog "Fatal" = ⟨"log", "Fatal"⟩ := by decide
+/-- regression (F18-3, fixed by 246eb1c): the foreign `log.Fatal` is bound to itself; the standard
+    library's is still bound to the sandboxed replacement -/
+theorem restricted_foreign_fixed :
+    (genE pkgForeignLog).vals = [⟨"Fatal", .value ⟨"log", "Fatal"⟩⟩] ∧
+    (genE { pkgForeignLog with importPath := "log", path := "log" }).vals = [⟨"Fatal", .value ⟨"", "logFatal"⟩⟩] := by decide
 
-theorem own_name_witness : ¬ own_name_statement := by
-  intro h
-  have := h pkgForeignLog ⟨"Fatal", .value ⟨"", "logFatal"⟩⟩ (by decide) ⟨"", "logFatal"⟩ rfl
-  revert this; decide
+/-- with the condition of the tree before 246eb1c the model reproduces the finding -/
+example : (genY { K with restrictedStdOnly := false } pkgForeignLog).vals = [⟨"Fatal", .value ⟨"", "logFatal"⟩⟩] := by decide
 
-example : DomName pkgMixed ∧ (genE pkgMixed).typs = [⟨"I", .typ ⟨"p", "I"⟩⟩] := by decide
+example : (genE pkgMixed).typs = [⟨"I", .typ ⟨"p", "I"⟩⟩] := by decide
 
 /-! ### 3. variables are bound by address (and nothing else is) -/
 
@@ -275,8 +227,10 @@ theorem untyped_const_literal (p : Pkg) (o : Obj) (ho : o ∈ p.objs) (hx : o.ex
     (∀ s, o.kind = .const (some (.str s)) → (⟨o.name, .lit .STRING (.str s)⟩ : Entry) ∈ (genE p).vals) ∧
     (∀ b, o.kind = .const (some (.bool b)) → (⟨o.name, .value (pname K p o.name)⟩ : Entry) ∈ (genE p).vals) ∧
     (∀ n d prec, o.kind = .const (some (.flt n d prec)) →
-        (⟨o.name, .lit .FLOAT (.rat (floatText n d prec).1 (floatText n d prec).2)⟩ : Entry) ∈ (genE p).vals) := by
-  refine ⟨?_, ?_, ?_, ?_⟩ <;> intros <;> rename_i hk <;>
+        (⟨o.name, .lit .FLOAT (.rat (floatText n d prec).1 (floatText n d prec).2)⟩ : Entry) ∈ (genE p).vals) ∧
+    (∀ re im, o.kind = .const (some (.cplx re im)) →
+        (⟨o.name, .lit .COMPLEX (.cplx (fixPart re) (fixPart im))⟩ : Entry) ∈ (genE p).vals) := by
+  refine ⟨?_, ?_, ?_, ?_, ?_⟩ <;> intros <;> rename_i hk <;>
     refine (mem_valEntries p _ p.objs).2 ⟨o, ho, _, ?_, rfl⟩ <;>
     rw [valForm_K] <;> simp [hx, hk, fixConst_K]
 
@@ -315,10 +269,53 @@ theorem float_const_witness :
 theorem float_const_exact_witness : ¬ float_const_exact_statement := by
   intro h; exact float_const_witness.2 (h 1 10 (by decide))
 
-/-- untyped complex constants are bound by name (converted to complex128), not by a literal -/
-theorem complex_const_witness :
-    (genE { pkgForeignLog with objs := [⟨"C", true, .const (some .cplx)⟩] }).vals = [⟨"C", .value ⟨"log", "C"⟩⟩] ∧
-    Spec.constForm ⟨"log", "C"⟩ (some .cplx) = .lit .COMPLEX .cplx := by decide
+/-- the nested literal `n` denotes the part `c` of a complex constant -/
+def denotes : Num → CNum → Prop
+  | .int v, .int n => v = n
+  | .rat a b, .flt n d _ => sameValue a b n d
+  | _, _ => False
+
+/-- the part is an integer, or a rational go/constant holds exactly with a power-of-two denominator -/
+def dyadicPart : CNum → Prop
+  | .int _ => True
+  | .flt _ d prec => prec = 0 ∧ ∃ k, d = 2 ^ k
+
+theorem fixPart_exact_of_dyadic (c : CNum) (h : dyadicPart c) : denotes (fixPart c) c := by
+  cases c with
+  | int n => rfl
+  | flt n d prec =>
+    obtain ⟨rfl, k, rfl⟩ := h
+    exact floatText_dyadic n k
+
+/-- **untyped complex constants are bound as exact go/constant values** (since eb1f965):
+    `constant.BinaryOp(re, token.ADD, constant.MakeImag(im))` with both parts literals, each denoting
+    its part exactly when that part is an integer or dyadic — for every package and every such constant,
+    however large (`1e400i` no longer goes through complex128) -/
+theorem complex_const_exact_of_dyadic (p : Pkg) (o : Obj) (ho : o ∈ p.objs) (hx : o.exported = true)
+    (re im : CNum) (hk : o.kind = .const (some (.cplx re im))) (hre : dyadicPart re) (him : dyadicPart im) :
+    ∃ a b, (⟨o.name, .lit .COMPLEX (.cplx a b)⟩ : Entry) ∈ (genE p).vals ∧ denotes a re ∧ denotes b im :=
+  ⟨fixPart re, fixPart im, (untyped_const_literal p o ho hx).2.2.2.2 re im hk,
+    fixPart_exact_of_dyadic re hre, fixPart_exact_of_dyadic im him⟩
+
+/-- regression (F18-2, fixed by eb1f965): `const C = 3 + 0.5i` and `const Big = 1e400i` (a value no
+    complex128 holds) are bound as exact literals -/
+theorem complex_const_fixed :
+    (genE { pkgForeignLog with objs := [⟨"Big", true, .const (some (.cplx (.int 0) (.int 10000000000000000000000000000000000000000000000000000000000000000000000000000000000000000000000000000000000000000000000000000000000000000000000000000000000000000000000000000000000000000000000000000000000000000000000000000000000000000000000000000000000000000000000000000000000000000000000000000000000000000000000000000000000000000000000000000000000000000000000000000000000000000000000000000000000000000)))⟩,
+                                        ⟨"C", true, .const (some (.cplx (.int 3) (.flt 1 2 0)))⟩] }).vals =
+      [⟨"Big", .lit .COMPLEX (.cplx (.int 0) (.int 10000000000000000000000000000000000000000000000000000000000000000000000000000000000000000000000000000000000000000000000000000000000000000000000000000000000000000000000000000000000000000000000000000000000000000000000000000000000000000000000000000000000000000000000000000000000000000000000000000000000000000000000000000000000000000000000000000000000000000000000000000000000000000000000000000000000000000))⟩, ⟨"C", .lit .COMPLEX (.cplx (.int 3) (.rat (5 * 10 ^ 63) (10 ^ 64)))⟩] ∧
+    Spec.constForm ⟨"log", "C"⟩ (some (.cplx (.int 3) (.flt 1 2 0))) = .lit .COMPLEX (.cplx (.int 3) (.rat 1 2)) := by decide
+
+/-- with the Complex case of the tree before eb1f965 the model binds the constant by name -/
+example : (genY { K with litComplex := false } { pkgForeignLog with objs := [⟨"C", true, .const (some (.cplx (.int 3) (.flt 1 2 0)))⟩] }).vals =
+    [⟨"C", .value ⟨"log", "C"⟩⟩] := by decide
+
+/-- still open (F18-1 inside a complex constant): the parts go through the same float printing, so
+    `0.1i` is bound to 0.1000000000000000000013552527156068805425093160010874271392822266 i -/
+theorem complex_part_rounded_witness :
+    fixPart (.flt 1 10 0) = .rat (floatText 1 10 0).1 (floatText 1 10 0).2 ∧ ¬ denotes (fixPart (.flt 1 10 0)) (.flt 1 10 0) := by
+  refine ⟨rfl, ?_⟩
+  show ¬ sameValue (floatText 1 10 0).1 (floatText 1 10 0).2 1 10
+  exact float_const_witness.2
 
 /-! ### 5. interface wrappers: exactly the exported methods, forwarded faithfully -/
 
@@ -333,17 +330,43 @@ def wfParams (variadic : Bool) (n : Nat) : Nat → List Param → Bool
 
 def methodWf (m : Method) : Bool := wfParams m.variadic m.params.length 0 m.params
 
-private theorem argName_eq (i : Nat) (q : Param) : argName K i q = Spec.paramName i q := by
-  unfold argName Spec.paramName; simp
+private theorem freshFrom_eq : ∀ (f : Nat) (used : List String) (s : String),
+    freshFrom f used s = Spec.distinctFrom f used s
+  | 0, _, _ => rfl
+  | f + 1, used, s => by unfold freshFrom Spec.distinctFrom; rw [freshFrom_eq f used (s ++ "_")]
 
-private theorem wparams_eq (variadic : Bool) (n : Nat) : ∀ (qs : List Param) (i : Nat),
-    wfParams variadic n i qs = true → wparams K variadic n i qs = Spec.wparams variadic n i qs
+private theorem fresh_eq (used : List String) (pre : String) (j : Nat) : fresh used pre j = Spec.invent used pre j := by
+  unfold fresh Spec.invent; exact freshFrom_eq _ _ _
+
+private theorem paramNames_eq : ∀ (ps : List Param) (used : List String) (i : Nat),
+    paramNames K used i ps = Spec.paramNames used i ps
   | [], _, _ => rfl
-  | q :: qs, i, h => by
+  | q :: qs, used, i => by
+    unfold Spec.paramNames
+    cases hf : needsFresh q.name
+    · rw [paramNames_keep used i q qs hf, paramNames_eq qs used (i + 1)]
+      simp [usable_eq, hf]
+    · rw [paramNames_fresh used i q qs hf, fresh_eq, paramNames_eq qs _ (i + 1)]
+      simp [usable_eq, hf]
+
+private theorem resultNames_eq : ∀ (rs : List Param) (used : List String) (i : Nat),
+    resultNames K used i rs = Spec.resultNames used i rs
+  | [], _, _ => rfl
+  | r :: rs, used, i => by
+    unfold Spec.resultNames
+    by_cases hw : r.name = "W"
+    · rw [resultNames_fresh used i r rs hw, fresh_eq, resultNames_eq rs _ (i + 1)]; simp [hw]
+    · rw [resultNames_keep used i r rs hw, resultNames_eq rs used (i + 1)]; simp [hw]
+
+private theorem wparams_eq (variadic : Bool) (n : Nat) : ∀ (qs : List Param) (ns : List String) (i : Nat),
+    wfParams variadic n i qs = true → wparams K variadic n i (rename qs ns) = Spec.wparams variadic n i qs ns
+  | [], _, _, _ => by simp [rename, wparams, Spec.wparams]
+  | _ :: _, [], _, _ => by simp [rename, wparams, Spec.wparams]
+  | q :: qs, nm :: ns, i, h => by
     unfold wfParams at h
     simp only [Bool.and_eq_true] at h
-    unfold wparams Spec.wparams
-    rw [wparams_eq variadic n qs (i + 1) h.2, argName_eq]
+    simp only [rename, wparams, Spec.wparams]
+    rw [wparams_eq variadic n qs ns (i + 1) h.2]
     congr 1
     unfold Spec.wparam
     cases hl : (variadic && (i + 1 == n))
@@ -356,19 +379,153 @@ private theorem wparams_eq (variadic : Bool) (n : Nat) : ∀ (qs : List Param) (
         simp only [he, Bool.not_true, Bool.false_or, beq_iff_eq] at h1
         simp [h1]
 
-private theorem wargs_eq (variadic : Bool) (n : Nat) : ∀ (qs : List Param) (i : Nat),
-    wargs K variadic n i qs = Spec.wargs variadic n i qs
-  | [], _ => rfl
-  | q :: qs, i => by
-    unfold wargs Spec.wargs
-    rw [wargs_eq variadic n qs (i + 1), argName_eq]; simp
+private theorem wargs_eq (variadic : Bool) (n : Nat) : ∀ (qs : List Param) (ns : List String) (i : Nat),
+    ns.length = qs.length → wargs K variadic n i (rename qs ns) = Spec.wargs variadic n i ns
+  | [], [], _, _ => rfl
+  | [], _ :: _, _, h => by simp at h
+  | _ :: _, [], _, h => by simp at h
+  | q :: qs, nm :: ns, i, h => by
+    simp only [rename, wargs, Spec.wargs]
+    rw [wargs_eq variadic n qs ns (i + 1) (by simpa using h)]; simp
 
-/-- a wrapper method is what the property asks for: names kept or defaulted to `a<i>`, the last
-    parameter `...E` and forwarded with `...` iff the method is variadic, results preserved -/
+private theorem wresults_eq : ∀ (rs : List Param) (ns : List String), wresults (rename rs ns) = Spec.wresults rs ns
+  | [], _ => by simp [rename, wresults, Spec.wresults]
+  | _ :: _, [] => by simp [rename, wresults, Spec.wresults]
+  | r :: rs, nm :: ns => by
+    have := wresults_eq rs ns
+    simp only [wresults] at this
+    simp [rename, wresults, Spec.wresults, this]
+
+private theorem paramNames_length : ∀ (ps : List Param) (used : List String) (i : Nat),
+    (paramNames K used i ps).1.length = ps.length
+  | [], _, _ => rfl
+  | q :: qs, used, i => by
+    cases hf : needsFresh q.name
+    · rw [paramNames_keep used i q qs hf]; simp [paramNames_length qs used (i + 1)]
+    · rw [paramNames_fresh used i q qs hf]; simp [paramNames_length qs _ (i + 1)]
+
+/-- **a wrapper method is what the property asks for**, whatever the interface calls its parameters
+    and results: usable names kept, the others replaced by `a<i>` / `r<i>` made distinct, the last
+    parameter `...E` and forwarded with `...` iff the method is variadic, results preserved, the nil
+    guard on `String() string` only -/
 theorem wmethod_eq_spec (m : Method) (h : methodWf m = true) : wmethod K m = Spec.wmethod m := by
-  unfold wmethod Spec.wmethod
-  rw [wparams_eq m.variadic m.params.length m.params 0 h, wargs_eq]
+  unfold wmethod Spec.wmethod declared
+  simp only [K_guardByName, K_guardStringer, Bool.false_and, Bool.false_or, Bool.true_and]
+  rw [paramNames_eq, resultNames_eq, wparams_eq m.variadic m.params.length m.params _ 0 h, wresults_eq,
+    wargs_eq m.variadic m.params.length m.params _ 0 (by rw [← paramNames_eq]; exact paramNames_length _ _ _)]
   rfl
+
+/-- Go's rule for a signature: the names of parameters and results that declare something are
+    pairwise distinct -/
+def sigNamesOk (m : Method) : Prop := (((m.params ++ m.results).map (·.name)).filter nonBlank).Nodup
+
+instance (m : Method) : Decidable (sigNamesOk m) := by unfold sigNamesOk; infer_instance
+
+/-- **the names a wrapper method declares compile, for every list of parameter and result names**
+    (since 7677ad0): every parameter has a name that is neither empty nor blank and is forwarded under
+    that name, in order; the receiver `W`, the parameters and the named results are pairwise distinct;
+    a name that can be kept is kept. (`blank`, `W` and clashing `a<i>` names were F18-7 / F18-8.) -/
+theorem wrapper_method_names_compile (m : Method) (h : sigNamesOk m) :
+    (∀ q ∈ (wmethod K m).params, q.name ≠ "" ∧ q.name ≠ "_") ∧
+    (wmethod K m).args.map (·.name) = (wmethod K m).params.map (·.name) ∧
+    (wmethod K m).params.length = m.params.length ∧ (wmethod K m).results.length = m.results.length ∧
+    ("W" :: (wmethod K m).params.map (·.name) ++ ((wmethod K m).results.map (·.name)).filter nonBlank).Nodup ∧
+    (∀ x ∈ m.params.zip ((wmethod K m).params.map (·.name)), Spec.usable x.1.name = true → x.2 = x.1.name) := by
+  -- the two loops
+  have hsplit : (((m.params.map (·.name)).filter nonBlank) ++ ((m.results.map (·.name)).filter nonBlank)).Nodup := by
+    unfold sigNamesOk at h; simpa [List.filter_append] using h
+  have hndP : ((m.params.map (·.name)).filter Spec.usable).Nodup := by
+    refine List.Nodup.sublist ?_ (List.nodup_append.1 hsplit).1
+    have : (m.params.map (·.name)).filter Spec.usable = ((m.params.map (·.name)).filter nonBlank).filter Spec.usable := by
+      rw [List.filter_filter]; congr 1; funext n
+      cases hu : Spec.usable n
+      · simp
+      · simp [usable_nonBlank n hu]
+    rw [this]; exact List.filter_sublist
+  have hinP : ∀ q ∈ m.params, q.name ∈ declared m := by
+    intro q hq; unfold declared
+    exact List.mem_cons_of_mem _ (List.mem_map.2 ⟨q, List.mem_append_left _ hq, rfl⟩)
+  obtain ⟨p1, p2, p3, p4, p5, p6⟩ := paramNames_inv m.params (declared m) 0 hinP hndP
+  have hinR : ∀ r ∈ m.results, r.name ∈ (paramNames K (declared m) 0 m.params).2 := by
+    intro r hr; apply p3; unfold declared
+    exact List.mem_cons_of_mem _ (List.mem_map.2 ⟨r, List.mem_append_right _ hr, rfl⟩)
+  obtain ⟨r1, r2, r3, r4⟩ := resultNames_inv m.results _ 0 hinR (List.nodup_append.1 hsplit).2.1
+  -- the names the wrapper method prints are the names the loops computed
+  have hpn : (wmethod K m).params.map (·.name) = (paramNames K (declared m) 0 m.params).1 := by
+    simp only [wmethod]; rw [wparams_names, rename_names _ _ p6]
+  have han : (wmethod K m).args.map (·.name) = (paramNames K (declared m) 0 m.params).1 := by
+    simp only [wmethod]; rw [wargs_names, rename_names _ _ p6]
+  have hrn : (wmethod K m).results.map (·.name) =
+      resultNames K (paramNames K (declared m) 0 m.params).2 0 m.results := by
+    simp only [wmethod]; rw [wresults_names, rename_names _ _ r4]
+  refine ⟨?_, by rw [han, hpn], ?_, ?_, ?_, ?_⟩
+  · intro q hq
+    have : needsFresh q.name = false := p2 _ (hpn ▸ List.mem_map.2 ⟨q, hq, rfl⟩)
+    unfold needsFresh at this
+    simp only [Bool.or_eq_false_iff, beq_eq_false_iff_ne] at this
+    exact ⟨this.1.1, this.1.2⟩
+  · have := congrArg List.length hpn; simpa [p6] using this
+  · have := congrArg List.length hrn; simpa [r4] using this
+  · rw [hpn, hrn]
+    refine List.nodup_cons.2 ⟨?_, List.nodup_append.2 ⟨p1, r1, ?_⟩⟩
+    · intro hm
+      rcases List.mem_append.1 hm with hm | hm
+      · have := p2 _ hm; simp [needsFresh] at this
+      · exact r2 _ (List.mem_filter.1 hm).1 rfl
+    · intro a ha b hb hab
+      subst hab
+      obtain ⟨hb1, hb2⟩ := List.mem_filter.1 hb
+      rcases r3 a hb1 with hr | hr
+      · exact hr (p4 a ha)
+      · rcases p5 a ha with hp | hp
+        · apply hp; unfold declared
+          obtain ⟨r, hr', hrn'⟩ := List.mem_map.1 hr
+          exact List.mem_cons_of_mem _ (List.mem_map.2 ⟨r, List.mem_append_right _ hr', hrn'⟩)
+        · -- a name of a parameter and of a result: excluded by Go's rule
+          have hp' : a ∈ (m.params.map (·.name)).filter nonBlank :=
+            List.mem_filter.2 ⟨(List.mem_filter.1 hp).1, usable_nonBlank a (List.mem_filter.1 hp).2⟩
+          exact (List.nodup_append.1 hsplit).2.2 a hp' a (List.mem_filter.2 ⟨hr, hb2⟩) rfl
+  · rw [hpn]; exact paramNames_kept m.params (declared m) 0
+
+/-- regression (F18-7 / F18-8, fixed by 7677ad0): `M(_ int, W int)` and `N(int) (a0 int)` -/
+theorem blank_param_fixed :
+    (wmethod K ⟨"M", true, false, [⟨"_", "int".toList, none, [], false⟩, ⟨"W", "int".toList, none, [], false⟩], []⟩).args =
+      [⟨"a0", false⟩, ⟨"a1", false⟩] ∧
+    ((wmethod K ⟨"N", true, false, [⟨"", "int".toList, none, [], false⟩], [⟨"a0", "int".toList, none, [], false⟩]⟩).params.map (·.name),
+     (wmethod K ⟨"N", true, false, [⟨"", "int".toList, none, [], false⟩], [⟨"a0", "int".toList, none, [], false⟩]⟩).results.map (·.name)) =
+      (["a0_"], ["a0"]) ∧
+    (wmethod K ⟨"R", true, false, [], [⟨"W", "int".toList, none, [], false⟩, ⟨"r0", "int".toList, none, [], false⟩]⟩).results.map (·.name) =
+      ["r0_", "r0"] := by decide
+
+/-- with the method loop of the tree before 7677ad0 the model reproduces the finding -/
+example :
+    (wmethod { K with freshNames := false, defaultNames := true }
+      ⟨"M", true, false, [⟨"_", "int".toList, none, [], false⟩, ⟨"W", "int".toList, none, [], false⟩], []⟩).args =
+      [⟨"_", false⟩, ⟨"W", false⟩] := by decide
+
+/-- **the nil guard `return ""` is attached to `String() string` and to nothing else** (since
+    2873e96) — every method -/
+theorem string_guard_exact (m : Method) :
+    (wmethod K m).guard = true ↔
+      m.name = "String" ∧ m.params = [] ∧ ∃ r, m.results = [r] ∧ r.isString = true := by
+  simp only [wmethod, K_guardByName, K_guardStringer, Bool.false_and, Bool.false_or, Bool.true_and, isStringer]
+  constructor
+  · intro h
+    simp only [Bool.and_eq_true, beq_iff_eq, List.isEmpty_iff] at h
+    obtain ⟨⟨h1, h2⟩, h3⟩ := h
+    refine ⟨h1, h2, ?_⟩
+    match hm : m.results, h3 with
+    | [r], h3 => exact ⟨r, rfl, h3⟩
+  · rintro ⟨h1, h2, r, h3, h4⟩
+    simp [h1, h2, h3, h4]
+
+/-- regression (F18-12, fixed by 2873e96): `String() (string, error)` gets no guard, `String() string` does -/
+theorem string_guard_fixed :
+    (wmethod K ⟨"String", true, false, [], [⟨"", "string".toList, none, [], true⟩, ⟨"", "error".toList, none, [], false⟩]⟩).guard = false ∧
+    (wmethod K ⟨"String", true, false, [], [⟨"", "string".toList, none, [], true⟩]⟩).guard = true ∧
+    (wmethod { K with guardStringer := false, guardByName := true }
+      ⟨"String", true, false, [], [⟨"", "string".toList, none, [], true⟩, ⟨"", "error".toList, none, [], false⟩]⟩).guard = true := by
+  decide
 
 private theorem keptMethods_eq (ms : List Method) : keptMethods K ms = ms.filter (·.exported) := by
   unfold keptMethods
@@ -376,8 +533,35 @@ private theorem keptMethods_eq (ms : List Method) : keptMethods K ms = ms.filter
 
 private theorem mangle_eq (s : String) : mangle K s = Spec.prefixOf s := by
   unfold mangle Spec.prefixOf
-  congr 2; funext c
-  simp [K, Bool.or_assoc]
+  simp [keptInPrefix]
+
+/-- **the wrapper type prefix is an identifier for every import path** (since 169d4db): go/format never
+    rejects the file because of it -/
+theorem prefix_is_identifier (importPath : String) : (mangle K importPath).toList.all identChar = true := by
+  unfold mangle
+  simp only [K_prefixAll, if_true, String.toList_ofList, List.all_map, List.all_eq_true]
+  intro c _
+  simp only [Function.comp]
+  by_cases h : keptInPrefix c = true
+  · rw [if_pos h]
+    simp only [keptInPrefix, identChar, Bool.or_eq_true] at h ⊢
+    rcases h with h | h
+    · exact Or.inl (Or.inl h)
+    · exact Or.inr h
+  · rw [if_neg h]; decide
+
+theorem format_never_fails (p : Pkg) : formatFails K p = false := by
+  unfold formatFails; simp [prefix_is_identifier]
+
+/-- regression (F18-14, fixed by 169d4db): `+` in an import path -/
+theorem import_path_plus_fixed :
+    mangle K "x.y/c++/lib" = "_x_y_c___lib_" ∧
+    formatFails { K with prefixAll := false, replaced := ['/', '-', '.', '~'] }
+      { pkgForeignLog with importPath := "x.y/c++/lib", objs := [⟨"I", true, .iface false 0 true []⟩] } = true := by decide
+
+/-- still open: the prefix is not injective — `x/a+b`, `x/a-b` and `x/a.b` share one, so the wrappers of
+    two such packages declare the same type names when they are generated into one package -/
+theorem prefix_collision_witness : mangle K "x/a+b" = mangle K "x/a-b" ∧ mangle K "x/a-b" = mangle K "x/a.b" := by decide
 
 /-- **every emitted interface has a wrapper with exactly its exported methods, each forwarded as the
     property demands** — and every wrapper type comes from such an interface -/
@@ -402,15 +586,13 @@ theorem iface_wrapper_methods (p : Pkg) :
     refine ⟨o, ho, hk, rfl, ?_⟩
     simp [wtypeOf, keptMethods_eq, wmethod, Function.comp_def]
 
-/-- the interfaces that get a wrapper are the exported, non-generic ones genContent keeps as types -/
+/-- the interfaces that get a wrapper are the exported, non-generic method sets -/
 theorem wrapped_iff (o : Obj) :
     wrapKept K o = true ↔ (o.exported = true ∧ match o.kind with
-      | .iface g emb _ methods => g = false ∧ ¬ (methods = [] ∧ emb ≠ 0)
+      | .iface g _ methodSet _ => g = false ∧ methodSet = true
       | _ => False) := by
   rw [wrapKept_K]
   cases o.exported <;> cases o.kind <;> simp
-  rename_i g emb ms methods
-  cases g <;> cases methods <;> simp
 
 /-- non-vacuity and a concrete reading: the wrapper of `pkgMixed.I` -/
 example :
@@ -493,72 +675,151 @@ theorem no_duplicates (p : Pkg) (h : (p.objs.map (·.name)).Nodup) :
   simp only [boundKeys, genE, genY, List.map_append]
   exact keys_nodup p p.objs h
 
-/-! ### witnesses for the compile-level findings the model can express -/
+/-! ### 7. the extracted package is imported iff a binding names it -/
 
-/-- F18-13: extracted through a relative directory, the package's own types are taken for foreign
-    ones: the wrapper imports `./relp` next to the real import path -/
+/-- no *type* of the package is replaced by a sandboxed one: every package but the standard library's
+    own os / log (import path = name), and those too unless the type is in the `restricted` table -/
+def DomImport (p : Pkg) : Prop :=
+  p.importPath ≠ p.name ∨ ∀ o ∈ p.objs, typKept K o = true → K.restricted.contains (p.name ++ o.name) = false
+
+instance (p : Pkg) : Decidable (DomImport p) := by unfold DomImport; infer_instance
+
+private theorem pname_cases (p : Pkg) (name : String) :
+    pname K p name = ⟨p.name, name⟩ ∨ pname K p name = ⟨"", p.name ++ name⟩ := by
+  unfold pname; split <;> simp
+
+private theorem ident_names (p : Pkg) (hn : p.name ≠ "") (name : String) :
+    (pname K p name == (⟨p.name, name⟩ : Ident)) = ((pname K p name).pkg != "") := by
+  rcases pname_cases p name with h | h <;> rw [h]
+  · simp [hn]
+  · have : ¬ ((⟨"", p.name ++ name⟩ : Ident) = ⟨p.name, name⟩) := by
+      intro h'; exact hn (Ident.mk.inj h').1.symm
+    simp [this]
+
+private theorem form_names (p : Pkg) (hn : p.name ≠ "") (o : Obj) (f : Form) (hf : valForm K p o = some f) :
+    namesPkg p ⟨o.name, f⟩ = Spec.refersPkg ⟨o.name, f⟩ := by
+  rw [valForm_K] at hf
+  cases hx : o.exported <;> simp [hx] at hf
+  cases hk : o.kind <;> simp [hk] at hf
+  · rename_i u
+    cases u <;> simp at hf
+    · subst hf; simp [namesPkg, Spec.refersPkg, ident_names p hn]
+    · subst hf; rw [fixConst_K]; rename_i v
+      cases v <;> simp [namesPkg, Spec.refersPkg, ident_names p hn]
+  · obtain ⟨_, rfl⟩ := hf; simp [namesPkg, Spec.refersPkg, ident_names p hn]
+  · subst hf; simp [namesPkg, Spec.refersPkg, ident_names p hn]
+
+private theorem vals_any_eq (p : Pkg) (hn : p.name ≠ "") : ∀ os : List Obj,
+    (valEntries K p os).any (namesPkg p) = (valEntries K p os).any Spec.refersPkg
+  | [] => rfl
+  | o :: os => by
+    unfold valEntries
+    cases hf : valForm K p o with
+    | none => simpa using vals_any_eq p hn os
+    | some f => simp only [K_tmplOk, if_true, List.any_cons, vals_any_eq p hn os, form_names p hn o f hf]
+
+private theorem typs_any_eq (p : Pkg) (hn : p.name ≠ "") : ∀ os : List Obj,
+    (p.importPath ≠ p.name ∨ ∀ o ∈ os, typKept K o = true → K.restricted.contains (p.name ++ o.name) = false) →
+    (typEntries K p os).any Spec.refersPkg = !(typEntries K p os).isEmpty
+  | [], _ => rfl
+  | o :: os, h => by
+    have h' : p.importPath ≠ p.name ∨ ∀ o ∈ os, typKept K o = true → K.restricted.contains (p.name ++ o.name) = false := by
+      rcases h with h | h
+      · exact Or.inl h
+      · exact Or.inr fun q hq => h q (List.mem_cons_of_mem _ hq)
+    unfold typEntries
+    cases hk : typKept K o
+    · simpa using typs_any_eq p hn os h'
+    · have hp : pname K p o.name = ⟨p.name, o.name⟩ := by
+        unfold pname
+        rcases h with h | h
+        · have : (p.importPath == p.name) = false := by simpa using h
+          simp [this]
+        · have := h o (List.mem_cons_self ..) hk
+          have h'' : ¬ (p.name ++ o.name ∈ K.restricted) := by simpa using this
+          simp [h'']
+      simp [Spec.refersPkg, hp, hn]
+
+/-- **the extracted package is imported iff some binding names it** (since a2117ce; an unused import
+    does not compile): the import block is the packages the wrapper methods mention, go/constant and
+    go/token when a literal is bound, the package itself exactly when a binding refers to it, and reflect
+    — every package in `DomImport`, in particular every package that is not the standard library's os or log -/
+theorem pkg_import_iff_used_partial (p : Pkg) (hn : p.name ≠ "") (h : DomImport p) :
+    (genE p).imports = typeImports K p p.objs ++ (if litUsed K p p.objs then ["go/constant", "go/token"] else []) ++
+      (if ((genE p).vals ++ (genE p).typs).any Spec.refersPkg then [p.importPath] else []) ++ ["reflect"] := by
+  have huse : usePkg K p (genE p).vals (genE p).typs = ((genE p).vals ++ (genE p).typs).any Spec.refersPkg := by
+    simp only [genE, genY, usePkg, K_importIfUsed, if_true, List.any_append]
+    rw [vals_any_eq p hn, typs_any_eq p hn p.objs h, Bool.or_comm]
+  rw [← huse]; rfl
+
+/-- F18-13 (still open): extracted through a relative directory, the package's own types are taken for
+    foreign ones: the wrapper imports `./relp` next to the real import path -/
 def pkgRelative : Pkg :=
   { importPath := "x.y/relp", path := "./relp", name := "relp", dest := "lib", minor := 23, tags := [],
-    objs := [⟨"I", true, .iface false 0 true [⟨"M", true, false, [⟨"x", "relp.T".toList, none, ["./relp"]⟩], []⟩]⟩,
+    objs := [⟨"I", true, .iface false 0 true [⟨"M", true, false, [⟨"x", "relp.T".toList, none, ["./relp"], false⟩], []⟩]⟩,
              ⟨"T", true, .typ false⟩] }
 
 /-- the same package as the importer names it when it is extracted by import path -/
 def pkgAbsolute : Pkg :=
   { pkgRelative with
     path := "x.y/relp"
-    objs := [⟨"I", true, .iface false 0 true [⟨"M", true, false, [⟨"x", "relp.T".toList, none, ["x.y/relp"]⟩], []⟩]⟩,
+    objs := [⟨"I", true, .iface false 0 true [⟨"M", true, false, [⟨"x", "relp.T".toList, none, ["x.y/relp"], false⟩], []⟩]⟩,
              ⟨"T", true, .typ false⟩] }
 
 theorem relative_path_witness :
     "./relp" ∈ (genE pkgRelative).imports ∧ "./relp" ∉ (Spec.wrapper K.restricted 22 pkgRelative).imports ∧
     (genE pkgAbsolute).imports = ["x.y/relp", "reflect"] := by decide
 
-/-- F18-15: a package that exports nothing but untyped numeric / string constants: every binding is
-    a literal, yet the package is imported — an unused import, the file does not compile -/
+/-- a package that exports nothing but untyped numeric / string constants: every binding is a literal -/
 def pkgOnlyLiterals : Pkg :=
   { pkgRelative with path := "x.y/relp", objs := [⟨"Max", true, .const (some (.int 1099511627776))⟩] }
 
-theorem only_literals_witness :
-    (genE pkgOnlyLiterals).imports = ["go/constant", "go/token", "x.y/relp", "reflect"] ∧
-    ((genE pkgOnlyLiterals).vals ++ (genE pkgOnlyLiterals).typs).any Spec.refersPkg = false ∧
-    (Spec.wrapper K.restricted 22 pkgOnlyLiterals).imports = ["go/constant", "go/token", "reflect"] := by decide
+/-- regression (F18-15, fixed by a2117ce): the package is not imported; with the template of the tree
+    before a2117ce the model reproduces the unused import -/
+theorem only_literals_fixed :
+    (genE pkgOnlyLiterals).imports = ["go/constant", "go/token", "reflect"] ∧
+    (Spec.wrapper K.restricted 22 pkgOnlyLiterals).imports = ["go/constant", "go/token", "reflect"] ∧
+    (genY { K with importIfUsed := false } pkgOnlyLiterals).imports = ["go/constant", "go/token", "x.y/relp", "reflect"] := by decide
 
-/-- F18-14: `+` is legal in an import path and is not replaced: the wrapper type name is not an
-    identifier and go/format rejects the file -/
-theorem import_path_plus_witness :
-    formatFails K { pkgRelative with importPath := "x.y/c++/lib", path := "x.y/c++/lib" } = true ∧
-    formatFails K pkgMixed = false := by decide
+/-- outside `DomImport` (still open, standard-library shaped packages only): `usePkg` starts from
+    `len(typ) > 0`, so a package `log` whose only binding that could name it is the sandboxed type
+    `Logger` (bound to the bare `logLogger`) is imported and never named -/
+theorem restricted_type_only_witness :
+    (genE { pkgForeignLog with importPath := "log", path := "log", objs := [⟨"Logger", true, .typ false⟩] }).typs =
+      [⟨"Logger", .typ ⟨"", "logLogger"⟩⟩] ∧
+    (genE { pkgForeignLog with importPath := "log", path := "log", objs := [⟨"Logger", true, .typ false⟩] }).imports = ["log", "reflect"] ∧
+    (Spec.wrapper K.restricted 22 { pkgForeignLog with importPath := "log", path := "log", objs := [⟨"Logger", true, .typ false⟩] }).imports =
+      ["reflect"] := by decide
 
-/-- F18-7 / F18-8: a blank parameter is forwarded as the value `_`; a parameter called `W` collides
-    with the receiver of the forwarding method -/
-theorem blank_param_witness :
-    (wmethod K ⟨"M", true, false, [⟨"_", "int".toList, none, []⟩, ⟨"W", "int".toList, none, []⟩], []⟩).args =
-      [⟨"_", false⟩, ⟨"W", false⟩] := by decide
-
-/-- F18-12: the nil guard `return ""` is attached to any method named String, whatever it returns -/
-theorem string_guard_witness :
-    (wmethod K ⟨"String", true, false, [], [⟨"", "string".toList, none, []⟩, ⟨"", "error".toList, none, []⟩]⟩).guard = true := by
-  decide
+/-- still open: a package that is itself called `constant` (or `token`, `reflect`) is imported next
+    to go/constant: two imports with one name, the file does not compile -/
+theorem package_named_constant_witness :
+    (genE { importPath := "x.y/constant", path := "x.y/constant", name := "constant", dest := "lib", minor := 23, tags := [],
+            objs := [⟨"F", true, .func false⟩, ⟨"Max", true, .const (some (.int 7))⟩] }).imports =
+      ["go/constant", "go/token", "x.y/constant", "reflect"] := by decide
 
 /-! ### the model agrees with the specification on the domain -/
 
-/-- exported untyped floating-point and complex constants (their literal is not syntactically the
-    specified one; see `float_const_exact_of_dyadic` and the witnesses) -/
+def isFlt : CNum → Bool
+  | .flt _ _ _ => true
+  | .int _ => false
+
+/-- exported untyped floating-point constants, and complex constants with a floating-point part (their
+    literal is not syntactically the specified one; see `float_const_exact_of_dyadic`,
+    `complex_const_exact_of_dyadic` and the witnesses) -/
 def inexactConst (o : Obj) : Bool :=
   o.exported && match o.kind with
   | .const (some (.flt _ _ _)) => true
-  | .const (some .cplx) => true
+  | .const (some (.cplx re im)) => isFlt re || isFlt im
   | _ => false
 
-/-- decidable domain on which genContent's output *is* the specified wrapper: the constraint-interface
-    test is exact, no os/log collision, no exported untyped floating-point or complex constant (those
-    are covered by `float_const_exact_of_dyadic` / the witnesses), variadic signatures well formed, the
-    package is named by its import path, and some binding names the package unless nothing is bound -/
+/-- decidable domain on which genContent's output *is* the specified wrapper: the package is named by
+    its import path (F18-13), no sandboxed type (`DomImport`), no exported untyped constant with a
+    floating-point part (F18-1: those are covered by `float_const_exact_of_dyadic` /
+    `complex_const_exact_of_dyadic` and the witnesses), variadic signatures well formed (go/types
+    guarantees it). Nothing is asked of interfaces, names, parameter names, import paths any more. -/
 def DomAll (p : Pkg) : Prop :=
-  p.path = p.importPath ∧
-  (((Spec.wrapper K.restricted K.defaultMinor p).vals ++ (Spec.wrapper K.restricted K.defaultMinor p).typs).any Spec.refersPkg =
-    !((Spec.wrapper K.restricted K.defaultMinor p).vals.isEmpty && (Spec.wrapper K.restricted K.defaultMinor p).typs.isEmpty)) ∧
-  DomBind p ∧ DomName p ∧
+  p.path = p.importPath ∧ p.name ≠ "" ∧ DomImport p ∧
   (∀ o ∈ p.objs, inexactConst o = false) ∧
   (∀ o ∈ p.objs, ∀ m ∈ methodsOf o.kind, methodWf m = true)
 
@@ -617,36 +878,33 @@ private theorem typeImports_eq (p : Pkg) (hp : p.path = p.importPath) : ∀ os :
     have hm : methodDeps p = Spec.methodDeps p := funext (methodDeps_eq p hp)
     cases h : wrapKept K o <;> simp [h, keptMethods_eq, List.flatMap_cons, hm]
 
-private theorem typKept_eq_spec (o : Obj) (h : ifaceRuleExact o = true) : typKept K o = Spec.isType o := by
+private theorem typKept_eq_spec (o : Obj) : typKept K o = Spec.isType o := by
   rw [typKept_K]
   unfold Spec.isType Spec.bindable
-  unfold ifaceRuleExact at h
   cases o.exported <;> cases hk : o.kind <;> simp_all
-  rename_i g emb ms methods
-  cases g <;> cases ms <;> cases methods <;> simp_all
 
-private theorem wrapKept_eq_spec (o : Obj) (h : ifaceRuleExact o = true) : wrapKept K o = Spec.isIface o := by
+private theorem wrapKept_eq_spec (o : Obj) : wrapKept K o = Spec.isIface o := by
   rw [wrapKept_K]
   unfold Spec.isIface Spec.bindable
-  unfold ifaceRuleExact at h
   cases o.exported <;> cases hk : o.kind <;> simp_all
-  rename_i g emb ms methods
-  cases g <;> cases ms <;> cases methods <;> simp_all
 
-private theorem valForm_eq_spec (p : Pkg) (o : Obj)
-    (hn : pname K p o.name = Spec.ident K.restricted p o.name)
-    (hc : inexactConst o = false) :
+private theorem fixPart_int (c : CNum) (h : isFlt c = false) : fixPart c = Spec.exact c := by
+  cases c <;> simp_all [isFlt, fixPart, Spec.exact]
+
+private theorem valForm_eq_spec (p : Pkg) (o : Obj) (hc : inexactConst o = false) :
     valForm K p o = Spec.valForm K.restricted p o := by
   rw [valForm_K]
   unfold Spec.valForm Spec.bindable
-  rw [← hn]
+  rw [← pname_eq_ident]
   unfold inexactConst at hc
   cases hx : o.exported <;> simp
   cases hk : o.kind <;> simp [hx, hk] at hc ⊢
   rename_i u
   cases u with
   | none => simp [Spec.constForm]
-  | some v => cases v <;> simp_all [fixConst_K, Spec.constForm]
+  | some v =>
+    cases v <;> simp_all [fixConst_K, Spec.constForm]
+    exact ⟨fixPart_int _ hc.1, fixPart_int _ hc.2⟩
 
 /-- **on the domain, the data genContent hands to the template is the specified wrapper**
     (every field but the build-tag line, which is compared in the correspondence run only) -/
@@ -655,29 +913,23 @@ theorem genY_eq_spec_partial (p : Pkg) (h : DomAll p) :
     (genE p).vals = s.vals ∧ (genE p).typs = s.typs ∧ (genE p).wraps = s.wraps ∧
     (genE p).wtypes = s.wtypes ∧ (genE p).imports = s.imports ∧
     (genE p).symKey = s.symKey ∧ (genE p).dest = s.dest := by
-  obtain ⟨hp, hself, hb, hn, hc, hw⟩ := h
-  have hname : ∀ o ∈ p.objs, pname K p o.name = Spec.ident K.restricted p o.name := by
-    intro o ho
-    apply pname_eq_ident
-    rcases hn with hn | hn
-    · exact Or.inl hn
-    · exact Or.inr (hn o ho)
+  obtain ⟨hp, hn, himp, hc, hw⟩ := h
   have hvals : valEntries K p p.objs =
       p.objs.filterMap fun o => (Spec.valForm K.restricted p o).map fun f => (⟨o.name, f⟩ : Entry) := by
     rw [valEntries_eq]
     apply filterMap_congr'
     intro o ho
-    rw [valForm_eq_spec p o (hname o ho) (hc o ho)]
+    rw [valForm_eq_spec p o (hc o ho)]
   have hfilt : p.objs.filter (typKept K) = p.objs.filter Spec.isType :=
-    List.filter_congr fun o ho => typKept_eq_spec o (hb o ho)
+    List.filter_congr fun o _ => typKept_eq_spec o
   have hfilw : p.objs.filter (wrapKept K) = p.objs.filter Spec.isIface :=
-    List.filter_congr fun o ho => wrapKept_eq_spec o (hb o ho)
+    List.filter_congr fun o _ => wrapKept_eq_spec o
   have htyps : typEntries K p p.objs =
       (p.objs.filter Spec.isType).map fun o => (⟨o.name, .typ (Spec.ident K.restricted p o.name)⟩ : Entry) := by
     rw [typEntries_eq, hfilt]
     apply List.map_congr_left
-    intro o ho
-    rw [hname o (List.mem_filter.1 ho).1]
+    intro o _
+    rw [pname_eq_ident]
   have hlit : litUsed K p p.objs = (valEntries K p p.objs).any (fun e => isLit e.form) := by
     rw [valEntries_eq]
     unfold litUsed
@@ -702,17 +954,31 @@ theorem genY_eq_spec_partial (p : Pkg) (h : DomAll p) :
     apply List.map_congr_left
     intro m hm
     exact wmethod_eq_spec m (hw o ho' m (List.mem_filter.1 hm).1)
-  · simp only [genE, genY, Spec.wrapper]
-    simp only [Spec.wrapper] at hself
-    rw [typeImports_eq p hp, hfilw, hlit, hvals, htyps, hself]
-    cases ((p.objs.filterMap fun o => (Spec.valForm K.restricted p o).map fun f => (⟨o.name, f⟩ : Entry)).isEmpty &&
-      ((p.objs.filter Spec.isType).map fun o => (⟨o.name, .typ (Spec.ident K.restricted p o.name)⟩ : Entry)).isEmpty) <;> rfl
+  · have hv : (genE p).vals = p.objs.filterMap fun o => (Spec.valForm K.restricted p o).map fun f => (⟨o.name, f⟩ : Entry) := hvals
+    have ht : (genE p).typs =
+        (p.objs.filter Spec.isType).map fun o => (⟨o.name, .typ (Spec.ident K.restricted p o.name)⟩ : Entry) := htyps
+    rw [pkg_import_iff_used_partial p hn himp, hv, ht, typeImports_eq p hp, hfilw, hlit, hvals]
+    rfl
 
-/-- non-vacuity of the domain -/
+/-- non-vacuity of the domain: blank / `W` / clashing parameter names, a `String() (string, error)`
+    method, `interface{ any }`, a constraint interface with a method, a third-party package called log
+    that exports Fatal, an import path with `+` and an exact complex constant are all inside -/
 def pkgPlain : Pkg :=
-  { pkgMixed with objs := pkgMixed.objs ++ [⟨"X", true, .const (some (.str "6869"))⟩, ⟨"Y", true, .const (some (.bool true))⟩] }
+  { pkgMixed with
+    importPath := "x.y/c++/log"
+    path := "x.y/c++/log"
+    name := "log"
+    objs := pkgMixed.objs ++ [⟨"X", true, .const (some (.str "6869"))⟩, ⟨"Y", true, .const (some (.bool true))⟩,
+      ⟨"Z", true, .const (some (.cplx (.int 1) (.int 2)))⟩, ⟨"Fatal", true, .func false⟩,
+      ⟨"E", true, .iface false 1 true []⟩,
+      ⟨"C", true, .iface false 1 false [⟨"String", true, false, [], [⟨"", "string".toList, none, [], true⟩]⟩]⟩,
+      ⟨"N", true, .iface false 0 true
+        [⟨"M", true, false, [⟨"_", "int".toList, none, [], false⟩, ⟨"W", "int".toList, none, [], false⟩, ⟨"", "int".toList, none, [], false⟩],
+           [⟨"a2", "int".toList, none, [], false⟩]⟩,
+         ⟨"String", true, false, [], [⟨"", "string".toList, none, [], true⟩, ⟨"", "error".toList, none, [], false⟩]⟩]⟩] }
 
-example : DomAll pkgPlain ∧ (genE pkgPlain).vals.length = 6 := by
-  refine ⟨⟨by decide, by decide, by decide, by decide, by decide, by decide⟩, by decide⟩
+example : DomAll pkgPlain ∧ (genE pkgPlain).vals.length = 8 ∧ boundKeys (genE pkgPlain) =
+    ["A", "B", "F", "V", "X", "Y", "Z", "Fatal", "I", "E", "N"] := by
+  refine ⟨⟨by decide, by decide, by decide, by decide, by decide⟩, by decide, by decide⟩
 
 end YaegiVerif.Props.C18
